@@ -41,6 +41,9 @@ _private_dunder_methods = frozenset([
 
 def is_private_attribute(attr_name: str) -> bool:
     """returns if the attribute name is to be considered private or not."""
+    if not isinstance(attr_name, str):
+        # never ask whatever object a peer sent for its attributes (a Proxy would answer with a remote call of its own)
+        raise TypeError("attribute name must be string, not '%s'" % type(attr_name).__name__)
     if attr_name in _private_dunder_methods:
         return True
     if not attr_name.startswith('_'):
@@ -343,6 +346,9 @@ class Daemon(object):
             serializer_id = msg.serializer_id
             serializer = serializers.serializers_by_id[serializer_id]
             data = serializer.loads(msg.data)
+            if not isinstance(data, dict):
+                # never index whatever object a peer sent (a Proxy would turn data["handshake"] into a remote call of its own)
+                raise errors.ProtocolError("handshake data is not a dict")
             handshake_response = self.validateHandshake(conn, data["handshake"])
             handshake_response = {
                 "handshake": handshake_response,
@@ -425,6 +431,9 @@ class Daemon(object):
             else:
                 # normal deserialization of remote call arguments
                 objId, method, vargs, kwargs = serializer.loadsCall(msg.data)
+            if not isinstance(vargs, (list, tuple)) or not (kwargs is None or isinstance(kwargs, dict)):
+                # never iterate or unpack whatever object a peer sent instead (a Proxy would make remote calls of its own)
+                raise TypeError("call arguments must be a sequence and a dict")
             current_context.client = conn
             try:
                 # store, because on oneway calls, socket will be disconnected:
@@ -443,7 +452,11 @@ class Daemon(object):
                 if request_flags & protocol.FLAGS_BATCH:
                     # batched method calls, loop over them all and collect all results
                     data = []
-                    for method, vargs, kwargs in vargs:
+                    for call in vargs:
+                        if not isinstance(call, (list, tuple)) or len(call) != 3 \
+                                or not isinstance(call[1], (list, tuple)) or not isinstance(call[2], dict):
+                            raise TypeError("batch item must be a (method, args, kwargs) triple")
+                        method, vargs, kwargs = call
                         method = _get_attribute(obj, method)
                         try:
                             result = method(*vargs, **kwargs)  # this is the actual method call to the Pyro object
